@@ -186,7 +186,17 @@ protected:
   template <class Value>
   void DoWriteScalar(const Value& val) {
     MakeScalarIfUnset();
-    wrt_.write("{}", val);
+    if constexpr (std::is_floating_point_v<Value>) {
+      /// JSON has no literals for non-finite numbers.
+      /// 1e999 is a valid JSON number that parsers read as infinity.
+      if (val != val)
+        wrt_.write("null");
+      else if (val - val != 0)        // +-infinity
+        wrt_.write(val > 0 ? "1e999" : "-1e999");
+      else
+        wrt_.write("{}", val);
+    } else
+      wrt_.write("{}", val);
     ++n_written_;
   }
 
